@@ -27,8 +27,11 @@ SFAIL=$(grep -E "^(--- FAIL|FAIL)" $OUT/suite.log | grep -v journald | grep -v "
 echo "build=$B demo_without=$W (want 0) demo_with=$D (want !=0) suite_failures_other_than_journald=[$SFAIL]"
 cd /; git -C /repo worktree remove --force $WT
 cp $SRC/m$K.diff $OUT/patch.diff; cp $DEMO $OUT/; cp $SRC/m$K.md $OUT/agent_notes.md
-# now the registered check against the mutant
-git -C /repo apply $OUT/patch.diff || exit 2
-( cd /verif && bin/vcheck $P > $OUT/check.log 2>&1; echo "check_exit=$?" )
-git -C /repo checkout -- .
-grep -E "^violation|^VIOLATION|^KNOWN|vcheck: $P" $OUT/check.log | cut -c1-400 | head -8
+# now the registered check against the mutant: a scratch copy of /repo with the patch applied
+# (VERIF_REPO), so that /repo itself is never touched by this script
+RT=$(mktemp -d /tmp/seedrepo-$ID-XXXX)
+rsync -a --exclude .git --exclude cmd /repo/ $RT/
+( cd $RT && git apply $OUT/patch.diff ) || exit 2
+( cd /verif && VERIF_REPO=$RT VERIF_NO_EVIDENCE=1 bin/vcheck $P > $OUT/check.log 2>&1; echo "check_exit=$?" )
+rm -rf $RT
+grep -E "^violation|^VIOLATION|^KNOWN|vcheck: $P" $OUT/check.log | cut -c1-400 | head -6
